@@ -293,7 +293,19 @@ def s3(ck: Check) -> None:
             tr = fm.translator(at, numeric={idx} if idx else set())
             src = f"seeds_only and len({child}) == 0 and len({seeds_name}) == 0"
             if idx:
-                src += f" and {idx} == len({lst}) - 1"
+                start = 0
+                if isinstance(it, ast.Call) and callee_name(it) == "enumerate":
+                    sv = it.args[1] if len(it.args) > 1 else next((k.value for k in it.keywords if k.arg == "start"), None)
+                    if isinstance(sv, ast.Constant) and isinstance(sv.value, int):
+                        start = sv.value
+                    elif sv is not None:
+                        start = None
+                if start == 0:
+                    src += f" and {idx} == len({lst}) - 1"
+                elif start == 1:
+                    src += f" and {idx} == len({lst})"
+                else:
+                    src += f" and {idx} == len({lst}) - 1 + {start}"
             want = tr.f(ast.parse(src, mode="eval").body)
             try:
                 ok = logic.implies(pc, want)
